@@ -4,3 +4,7 @@ import MimicProps.C10
 #print axioms MimicProps.C10.no_close_without_init
 #print axioms MimicProps.C10.real_events_wf
 #print axioms MimicProps.C10.coroutine_skeletons
+#print axioms MimicProps.C10.code_admitted_is_released
+#print axioms MimicProps.C10.code_remove_only_what_was_added
+#print axioms MimicProps.C10.code_refused_gets_one_err
+#print axioms MimicProps.C10.code_raises_only_from_start
